@@ -107,8 +107,8 @@ end Ggrs
 
 namespace Ggrs
 
-/-- **C01, game state = serial replay (partial: rollback mode, no sparse saving, no disconnected
-players).** After every interleaving of remote-input arrivals and `advance_frame` calls whose
+/-- **C01, game state = serial replay (partial: rollback mode, no disconnected players; sparse
+saving or not).** After every interleaving of remote-input arrivals and `advance_frame` calls whose
 requests the game executes in order, the game is at the session's frame and its state is the
 serial replay, from the initial state, of the rows of its timeline — the inputs of the last
 simulation of every frame, which `C01_timeline_partial` shows to be the real inputs wherever they
@@ -117,7 +117,7 @@ theorem C01_state_replay_partial {G : Type} (step : G → List (Input × InputSt
     (a b : P2P × GS G) (h0 : WInv step g0 a.1 a.2) (hrun : WStar step a b) :
     b.2.cur = b.1.sync.currentFrame ∧ b.2.g = replay step g0 b.2.R b.2.cur.toNat := by
   have h := WInv_run step g0 a b h0 hrun
-  obtain ⟨c, _, hc, _, hg⟩ := h.chk
+  obtain ⟨c, hc, hg, _, _⟩ := h.chk
   exact ⟨hg.cur.trans hc, hg.state⟩
 
 end Ggrs
